@@ -169,6 +169,12 @@ func (ix *Index) indexReadyBlobs(ctx context.Context) {
 // ix.mu must be held.
 func (ix *Index) noteBlobIndexedLocked(br blob.Ref) {
 	for _, needer := range ix.neededBy[br] {
+		// br isn't missing anymore. Forget the persisted edge too, or a
+		// needer still waiting for another blob would, after a restart,
+		// wait forever for br as well.
+		if err := ix.s.Delete(keyMissing.Key(needer, br)); err != nil {
+			log.Printf("index: error deleting missing edge from %v to %v: %v", needer, br, err)
+		}
 		newNeeds := blobsFilteringOut(ix.needs[needer], br)
 		if len(newNeeds) == 0 {
 			ix.readyReindex[needer] = true
